@@ -471,6 +471,7 @@ type funcContext struct {
 	unresolvedGotos map[int]*gotoLabelDesc
 	pendingBreaks   []*pendingBreak
 	constIndex      map[constKey]int // index of every constant in Proto.Constants
+	notConst        map[ast.Expr]struct{} // operator expressions constFold found not to be constant
 }
 
 // pendingBreak is a break for which it is not known yet whether it has to
@@ -497,6 +498,7 @@ func newFuncContext(sourcename string, parent *funcContext) *funcContext {
 		gotosCount:      0,
 		unresolvedGotos: map[int]*gotoLabelDesc{},
 		constIndex:      map[constKey]int{},
+		notConst:        map[ast.Expr]struct{}{},
 	}
 	fc.Blocks = []*codeBlock{fc.Block}
 	return fc
@@ -1450,11 +1452,19 @@ func compileExprWithMVPropagation(context *funcContext, expr ast.Expr, reg *int,
 	compileExprWithPropagation(context, expr, reg, save, context.Code.PropagateMV)
 } // }}}
 
-func constFold(exp ast.Expr) ast.Expr { // {{{
+// constFold evaluates an arithmetic expression over numerals. The compiler
+// asks at every operator of an expression, so an operator found not to be
+// constant is remembered in notConst: the answer for a sub-expression was
+// computed while folding the expression around it and walking the operands
+// again at every level is quadratic in the length of a chain like a+a+a+...
+func constFold(exp ast.Expr, notConst map[ast.Expr]struct{}) ast.Expr { // {{{
 	switch expr := exp.(type) {
 	case *ast.ArithmeticOpExpr:
-		lvalue, lisconst := lnumberValue(constFold(expr.Lhs))
-		rvalue, risconst := lnumberValue(constFold(expr.Rhs))
+		if _, ok := notConst[expr]; ok {
+			return expr
+		}
+		lvalue, lisconst := lnumberValue(constFold(expr.Lhs, notConst))
+		rvalue, risconst := lnumberValue(constFold(expr.Rhs, notConst))
 		if lisconst && risconst {
 			switch expr.Operator {
 			case "+":
@@ -1473,13 +1483,18 @@ func constFold(exp ast.Expr) ast.Expr { // {{{
 				panic(fmt.Sprintf("unknown binop: %v", expr.Operator))
 			}
 		} else {
+			notConst[expr] = struct{}{}
 			return expr
 		}
 	case *ast.UnaryMinusOpExpr:
-		expr.Expr = constFold(expr.Expr)
+		if _, ok := notConst[expr]; ok {
+			return expr
+		}
+		expr.Expr = constFold(expr.Expr, notConst)
 		if value, ok := lnumberValue(expr.Expr); ok {
 			return &constLValueExpr{Value: LNumber(-value)}
 		}
+		notConst[expr] = struct{}{}
 		return expr
 	default:
 
@@ -1605,7 +1620,7 @@ func compileTableExpr(context *funcContext, reg int, ex *ast.TableExpr, ec *expc
 } // }}}
 
 func compileArithmeticOpExpr(context *funcContext, reg int, expr *ast.ArithmeticOpExpr, ec *expcontext) { // {{{
-	exp := constFold(expr)
+	exp := constFold(expr, context.notConst)
 	if ex, ok := exp.(*constLValueExpr); ok {
 		exp.SetLine(sline(expr))
 		compileExpr(context, reg, ex, ec)
@@ -1663,7 +1678,7 @@ func compileUnaryOpExpr(context *funcContext, reg int, expr ast.Expr, ec *expcon
 	var operandexpr ast.Expr
 	switch ex := expr.(type) {
 	case *ast.UnaryMinusOpExpr:
-		exp := constFold(ex)
+		exp := constFold(ex, context.notConst)
 		if lvexpr, ok := exp.(*constLValueExpr); ok {
 			exp.SetLine(sline(expr))
 			compileExpr(context, reg, lvexpr, ec)
